@@ -87,9 +87,12 @@ RefOutcomeFn(f, a) ==
   ELSE IF FN(f).out[a + 1].k = "raise" THEN FN(f).out[a + 1]
   ELSE IF ~EffPost(f, a) THEN ErrorOf(FirstFalsy(FN(f).post, a))
   ELSE FN(f).out[a + 1]
-ScriptFree(f) == FN(f).script = <<>> /\ \A c \in ConsOfFn(f) : CON(c).script = <<>> /\ CON(c).escript = <<>>
-                                    /\ CON(c).rv = "bool" /\ CON(c).err # "badfactory"
-                 /\ \A n \in DOMAIN FN(f).snap : SNP(FN(f).snap[n]).rv = "bool" /\ SNP(FN(f).snap[n]).script = <<>>
+\* (a script that only awaits - suspension points of a coroutine function - makes no call: the verdict is still a
+\*  function of the call alone; without this the obligation would be vacuous for every asyncio-like program)
+Quiet(sc) == \A i \in DOMAIN sc : sc[i].op = "await"
+ScriptFree(f) == Quiet(FN(f).script) /\ \A c \in ConsOfFn(f) : Quiet(CON(c).script) /\ CON(c).escript = <<>>
+                                    /\ (CON(c).rv = "bool" \/ (CON(c).rv = "corofn" /\ FN(f).async)) /\ CON(c).err # "badfactory"
+                 /\ \A n \in DOMAIN FN(f).snap : (SNP(FN(f).snap[n]).rv = "bool" \/ (SNP(FN(f).snap[n]).rv = "corofn" /\ FN(f).async)) /\ Quiet(SNP(FN(f).snap[n]).script)
 \* argument of the call the driver of task t made last
 LastArg(t) == prog.drv[t][stack[t][1].pos - 1].a
 \* the verdict of a call depends only on the call: checked where the driver of a task gets the outcome
